@@ -92,6 +92,19 @@ def pil_world(eng, st):
         s2 = e.fork(s, idx >= 0)
         return [(dflt, s), (idx, s2), (Rec("bytes", {"what": "tRNS table"}), s)]
     eng.methods[("PIL.info", "get")] = info_get
+
+    def info_write(name):
+        def f(e, s, recv, a, k):
+            # img.info is part of the image: writing to it alters the image the caller handed in (what a later conversion of a
+            # paletted image makes of its transparent entry depends on it)
+            s = e.fork(s)
+            s.ghost["info_writes"] = s.ghost.get("info_writes", []) + [(name,) + tuple(x for x in a if isinstance(x, str))]
+            return [(Opaque("info." + name), s)]
+        return f
+    for n_ in ("pop", "__setitem__", "__delitem__", "clear", "update", "setdefault", "popitem"):
+        eng.methods[("PIL.info", n_)] = info_write(n_)
+    # `x in <pixel data>`: depends on the pixels - may hold or not
+    eng.methods[("rec:pixeldata", "__contains__")] = lambda e, s, recv, a, k: [(e.sym_bool("value_occurs_in_pixel_data"), s)]
     eng.attrs[("PIL.Image", "info")] = lambda e, s, v: [(info, s)]
     eng.closed_classes.add("PIL.Image")
     eng.closed_only["PIL.Image"] = {"filename", "fp", "format"}
@@ -188,6 +201,9 @@ def render_data_unit(src_mode, alpha_kind, pil_source=False):
             if pil_source:
                 # a PIL image supplied by the caller is never closed by the library
                 eng.oblige(f"C11:caller-supplied-PIL-image-never-closed@{kind}", s, h0["open"] is True, prop="C11", kind="exit")
+                # ... nor altered: the same image is the source of every later render, under whatever transparency setting
+                eng.oblige(f"C02:caller-supplied-PIL-image-not-altered(info-untouched)@{kind}", s, not s.ghost.get("info_writes"), prop="C02", kind="exit",
+                           replay="C02.source_untouched")
                 if kind != "return":
                     continue
             elif kind == "return":
@@ -290,7 +306,7 @@ def render_data_unit(src_mode, alpha_kind, pil_source=False):
         from pyvc.engine import Obligation as _Ob
         for ob in list(eng.obligations):
             if ob.prop == "C02" and ob.meta.get("kind") != "cover":
-                eng.obligations.append(_Ob(ob.name.replace("C02", "C03"), ob.pc, ob.goal, "C03", dict(ob.meta, replay="C03.render")))
+                eng.obligations.append(_Ob(ob.name.replace("C02", "C03"), ob.pc, ob.goal, "C03", dict(ob.meta, replay="C03.render" if ob.meta.get("replay") in (None, "C02.render") else ob.meta["replay"])))
         return eng.obligations
     return u
 
@@ -299,5 +315,6 @@ for _m in ("RGB", "L", "RGBA", "P"):
     for _a in ("none", "float", "hex", "#"):
         render_data_unit(_m, _a)
 render_data_unit("L", "none", pil_source=True)
+render_data_unit("P", "none", pil_source=True)
 render_data_unit("P", "float", pil_source=True)
 render_data_unit("RGBA", "hex", pil_source=True)
